@@ -802,14 +802,18 @@ pub fn run_conc(case: &ConcCase, rep: &mut RunReport) -> Result<(), Violation> {
     }
     // ---- a flush issued now persists everything acknowledged so far, including
     // what the synchronous in-memory setters changed
-    let mut want_ext: Option<BTreeMap<String, u64>> = None;
+    // ---- crash right now: every acknowledged call must survive - first as the
+    // concurrent calls (a concurrent flush among them) left the disk, then once
+    // more after a flush issued now
+    let mut crash_disks: Vec<(InMemory, Option<BTreeMap<String, u64>>)> = Vec::new();
+    if case.transition == Transition::None || reopen_needed {
+        crash_disks.push((store.disk().fork(), None));
+    }
     if case.transition == Transition::None {
         block(world.coll.flush(anda_db::unix_ms())).map_err(|e| violation!("c05.final-flush-failed", "a flush after all calls returned failed: {e:?}"))?;
-        want_ext = Some(obs.ext.clone());
+        crash_disks.push((store.disk().fork(), Some(obs.ext.clone())));
     }
-    // ---- crash right now: every acknowledged call must survive
-    if case.transition == Transition::None || reopen_needed {
-        let disk = store.disk().fork();
+    for (disk, want_ext) in crash_disks {
         let mut cfg2 = SimConfig::simple(case.seed ^ 0xC0);
         cfg2.park = false;
         cfg2.record_trace = false;
